@@ -317,7 +317,7 @@ wait:
 		// every 64th; in between the last site found for that mode is reused.
 		site, siteBytes, stack := st.lastSite, int64(0), "(site reused from an earlier exceedance of this mode)"
 		if st.AllocOver <= 3 || st.AllocOver%64 == 0 || site == "" {
-			site, siteBytes, stack = allocSite(fn)
+			site, siteBytes, stack = allocSite(fn, delta)
 			if site == "" { // could not be profiled (re-run too slow on a loaded machine): reuse, never invent a key
 				site = st.lastSite
 			}
@@ -368,7 +368,7 @@ func decodeGoroutine(dump string) string {
 // (every allocation that matters for a >64 MiB exceedance is sampled) and
 // returns the go-git function that is responsible for the largest allocated
 // volume, summed over all stacks whose innermost go-git frame it is.
-func allocSite(fn func() bool) (site string, bytes int64, detail string) {
+func allocSite(fn func() bool, measured uint64) (site string, bytes int64, detail string) {
 	old := runtime.MemProfileRate
 	runtime.MemProfileRate = 4096
 	defer func() { runtime.MemProfileRate = old }()
@@ -408,9 +408,13 @@ func allocSite(fn func() bool) (site string, bytes int64, detail string) {
 			continue
 		}
 		var gg, first string
+		own := false
 		frames := runtime.CallersFrames(r.Stack())
 		for {
 			fr, more := frames.Next()
+			if strings.HasPrefix(fr.Function, "verif/fuzz.allocSite") {
+				own = true // the profiler's own snapshot buffers
+			}
 			if fr.Function != "" {
 				if gg == "" && strings.HasPrefix(fr.Function, fuzzkey.GoGit) {
 					gg = strings.TrimPrefix(fr.Function, fuzzkey.GoGit)
@@ -422,6 +426,9 @@ func allocSite(fn func() bool) (site string, bytes int64, detail string) {
 			if !more {
 				break
 			}
+		}
+		if own {
+			continue
 		}
 		if gg == "" {
 			gg = first
@@ -446,6 +453,11 @@ func allocSite(fn func() bool) (site string, bytes int64, detail string) {
 			break
 		}
 		fmt.Fprintf(&sb, "%s=%dB; ", e.k, e.v)
+	}
+	if uint64(all[0].v)*8 < measured {
+		// the profiled re-run does not show where the measured volume came from
+		// (non-deterministic decode): do not invent a key from a minor site
+		return "", all[0].v, "profiled re-run does not account for the measured volume: " + sb.String()
 	}
 	return all[0].k, all[0].v, sb.String()
 }
